@@ -986,18 +986,14 @@ class BOOLEAN(FieldType):
     def to_bytes(self, x):
         if isinstance(x, bytes_type):
             return x
-        elif isinstance(x, string_type):
-            x = x.lower() in self.trues
-        else:
-            x = bool(x)
-        bs = self.bytestrings[int(x)]
+        # One reading of a value for indexing and for querying (a string
+        # outside the true/false word lists used to index as False but to
+        # query as True)
+        bs = self.bytestrings[int(self._obj_to_bool(x))]
         return bs
 
     def index(self, bit, **kwargs):
-        if isinstance(bit, string_type):
-            bit = bit.lower() in self.trues
-        else:
-            bit = bool(bit)
+        bit = self._obj_to_bool(bit)
         # word, freq, weight, valuestring
         return [(self.bytestrings[int(bit)], 1, 1.0, emptybytes)]
 
